@@ -65,39 +65,144 @@ def gen_table(rng, n):
     return [rng.randint(-9, 9) for _ in range(n)]
 
 
-def gen_space(rng, want=None):
+# ---- class L: labels.  A descriptor is JSON-able; build() makes a FRESH object on every call (equal, never identical
+# for big ints / tuples / strings / frozensets).  The pool is injective under == (0, False, 0.0 are never mixed).
+def build(d):
+    k = d[0]
+    if k == "none":
+        return None
+    if k == "int":
+        return int(str(d[1]))  # a new int object for |v| >= 257
+    if k == "bool":
+        return bool(d[1])
+    if k == "float":
+        return float(str(d[1]))
+    if k == "str":
+        return "".join(list(d[1]))
+    if k == "tuple":
+        return tuple(build(e) for e in d[1])
+    if k == "fset":
+        return frozenset(d[1])
+    raise ValueError(d)
+
+
+def same(a, b):
+    return type(a) is type(b) and a == b
+
+
+def gen_labels(rng, n, allow_none=True):
+    """n descriptors, pairwise different under ==, falsy / None / mixed types first."""
+    zero = rng.choice([["int", 0], ["bool", 0], ["float", 0.0]])
+    special = [zero, ["str", ""], ["tuple", []], ["fset", []]] + ([["none"]] if allow_none else [])
+    rng.shuffle(special)
+    special = special[: rng.randint(1, len(special))]
+    if allow_none and rng.random() < 0.5 and ["none"] not in special:
+        special.append(["none"])
+    out = list(special)
+    i = 0
+    while len(out) < n:
+        i += 1
+        out.append(rng.choice([["int", 300 + i], ["str", f"c{i}"], ["tuple", [["int", i], ["str", "m"]]], ["fset", [i, 1000 + i]],
+                               ["float", i + 0.5], ["tuple", [["none"], ["int", 1000 + i]]], ["int", -i]]))
+    out = out[:n]
+    rng.shuffle(out)
+    return out
+
+
+def gen_space(rng, want=None, enc=None):
     kind = want or rng.choice(["line", "line", "perm"])
     if kind == "line":
         n = rng.choice([1, 2, 3, 5, 8, 12, 16])
-        return {"kind": "line", "table": gen_table(rng, n), "float": rng.random() < 0.25}
+        sp = {"kind": "line", "table": gen_table(rng, n), "float": rng.random() < 0.25,
+              "enc": enc or rng.choice(["int", "int", "int", "list", "big", "tuple", "str"])}
+        if sp["enc"] == "pool":
+            sp["labels"] = gen_labels(rng, n)
+        return sp
     n = rng.choice([3, 4, 5])
-    return {"kind": "perm", "w": [[rng.randint(-3, 3) for _ in range(n)] for _ in range(n)], "float": rng.random() < 0.25}
+    return {"kind": "perm", "w": [[rng.randint(-3, 3) for _ in range(n)] for _ in range(n)], "float": rng.random() < 0.25,
+            "enc": rng.choice(["list", "list", "tuple"])}
+
+
+class Space:
+    """Points are handled as indices (line) / lists (perm) by the call-backs and shown to the solver in the
+    space's encoding; enc() builds a fresh object every time."""
+
+    def __init__(self, sp):
+        self.sp = sp
+        self.kind = sp["kind"]
+        self.n = len(sp["table"]) if self.kind == "line" else len(sp["w"])
+        self.off = sp.get("offset", 0)
+        self.sc = sp.get("scale", 1)
+        self.encoding = sp.get("enc", "int" if self.kind == "line" else "list")
+
+    def enc(self, p):
+        e = self.encoding
+        if self.kind == "perm":
+            return tuple(p) if e == "tuple" else list(p)
+        if e == "int":
+            return p
+        if e == "big":
+            return int(str(p + 1000))
+        if e == "list":
+            return [p]
+        if e == "tuple":
+            return tuple(["cell", p])
+        if e == "str":
+            return "c" + str(p)
+        return build(self.sp["labels"][p])
+
+    def dec(self, x):
+        e = self.encoding
+        if self.kind == "perm":
+            if not isinstance(x, tuple if e == "tuple" else list):
+                raise TypeError("not a point")
+            return list(x)
+        if e == "int":
+            if type(x) is not int:
+                raise TypeError("not a point")
+            return x
+        if e == "big":
+            if type(x) is not int:
+                raise TypeError("not a point")
+            return x - 1000
+        if e == "list":
+            if type(x) is not list or len(x) != 1:
+                raise TypeError("not a point")
+            return x[0]
+        if e == "tuple":
+            if type(x) is not tuple or len(x) != 2:
+                raise TypeError("not a point")
+            return x[1]
+        if e == "str":
+            if type(x) is not str:
+                raise TypeError("not a point")
+            return int(x[1:])
+        for i, d in enumerate(self.sp["labels"]):
+            if same(build(d), x):
+                return i
+        raise TypeError("not a point")
+
+    def value(self, p):
+        if self.kind == "line":
+            return self.off + self.sc * self.sp["table"][p]
+        W = self.sp["w"]
+        return self.off + self.sc * sum(W[i][p[i]] for i in range(len(p)))
 
 
 def raw_f(space, negate):
-    """The user's objective (deterministic, integer-valued) - `negate` gives -f for the mirror run."""
+    """The user's objective (deterministic, integer-valued, exact Python ints) - `negate` gives -f for the mirror run."""
     s = -1 if negate else 1
-    if space["kind"] == "line":
-        T = space["table"]
-
-        def f(x):
-            return s * T[x[0] if isinstance(x, list) else x]
-    else:
-        W = space["w"]
-
-        def f(p):
-            return s * sum(W[i][p[i]] for i in range(len(p)))
-    return f
+    S = Space(space)
+    return lambda x: s * S.value(S.dec(x))
 
 
 def clamp(x, n):
     return max(0, min(n - 1, x))
 
 
-def gen_start(rng, space, boxed=False):
+def gen_start(rng, space):
     if space["kind"] == "line":
-        x = rng.randrange(len(space["table"]))
-        return [x] if boxed else x
+        return rng.randrange(len(space["table"]))
     p = list(range(len(space["w"])))
     rng.shuffle(p)
     return p
@@ -117,7 +222,6 @@ class Rec:
     def __init__(self):
         self.tokens = []
         self.log = []  # (deep copy of the point, integer value f returned)
-        self.keep = []  # keeps every object whose id() we recorded alive
 
 
 def rec_objective(space, negate, rec):
@@ -127,8 +231,7 @@ def rec_objective(space, negate, rec):
     def obj(x):
         v = f(x)
         rec.log.append((copy.deepcopy(x), v))
-        rec.tokens.append(("eval", v, id(x)))
-        rec.keep.append(x)
+        rec.tokens.append(("eval", v))
         return float(v) if as_float else v
 
     return obj
@@ -144,6 +247,13 @@ def rec_random_class(rec):
             r = super().random()
             rec.tokens.append(("draw", r))
             return r
+
+        def shuffle(self, x):
+            # same swaps as Random.shuffle(x), applied to the index list: x_new[k] = x_old[perm[k]]
+            perm = list(range(len(x)))
+            super().shuffle(perm)
+            x[:] = [x[i] for i in perm]
+            rec.tokens.append(("shuf", perm))
 
     return RecRandom
 
@@ -178,21 +288,45 @@ class Patched:
 
 
 # ====================================================================================== solver runs
-def call_anneal(case, minimize, negate, rec):
+def build_inputs(case):
+    """The caller-owned objects handed to the solver (class A: shared by the consecutive runs of one case and
+    compared with a pristine rebuild afterwards)."""
+    S = Space(case["space"])
+    if case["solver"] == "evolve":
+        kind = case.get("pop_kind", "list")
+        if kind == "range":
+            return {"population": range(len(case["population"]))}
+        pop = [S.enc(p) for p in case["population"]]
+        return {"population": tuple(pop) if kind == "tuple" else pop}
+    return {"start": S.enc(case["start"])}
+
+
+def inputs_equal(a, b):
+    def eq(x, y):
+        if type(x) is not type(y):
+            return False
+        if isinstance(x, (list, tuple)):
+            return len(x) == len(y) and all(eq(p, q) for p, q in zip(x, y))
+        return x == y
+    return a.keys() == b.keys() and all(eq(a[k], b[k]) for k in a)
+
+
+def call_anneal(case, minimize, negate, rec, inputs):
     M = importlib.import_module("solvor.anneal")
 
     sp = case["space"]
-    n = len(sp["table"]) if sp["kind"] == "line" else len(sp["w"])
+    S = Space(sp)
+    n = S.n
     nrng = random.Random(case["cb_seed"])
     steps = case.get("steps", [1, 2])
 
     def neighbors(x):
-        if sp["kind"] == "line":
-            return clamp(x + nrng.choice(steps) * nrng.choice([-1, 1]), n)
-        p = list(x)
+        p = S.dec(x)
+        if S.kind == "line":
+            return S.enc(clamp(p + nrng.choice(steps) * nrng.choice([-1, 1]), n))
         i, j = nrng.randrange(n), nrng.randrange(n)
         p[i], p[j] = p[j], p[i]
-        return p
+        return S.enc(p)
 
     orig_exp, orig_ec = M.exp, M.exponential_cooling
 
@@ -212,36 +346,41 @@ def call_anneal(case, minimize, negate, rec):
     def rec_ec(rate=0.9995):
         return wrap_sched(orig_ec(rate))
 
-    ck, cv = case["cooling"]
-    cooling = {"float": lambda: cv, "exp": lambda: wrap_sched(orig_ec(cv)), "lin": lambda: wrap_sched(M.linear_cooling(cv)),
-               "log": lambda: wrap_sched(M.logarithmic_cooling(cv))}[ck]()
+    kw = {}
+    if "cooling" in case:
+        ck, cv = case["cooling"]
+        kw["cooling"] = {"float": lambda: cv, "exp": lambda: wrap_sched(orig_ec(cv)), "lin": lambda: wrap_sched(M.linear_cooling(cv)),
+                         "log": lambda: wrap_sched(M.logarithmic_cooling(cv))}[ck]()
+    for k in ("temperature", "min_temp", "max_iter"):
+        if k in case:
+            kw[k] = case[k]
     cb, interval = rec_progress(case["progress"], rec)
     with Patched(M, Random=rec_random_class(rec), exp=rexp, exponential_cooling=rec_ec):
-        return M.anneal(copy.deepcopy(case["start"]), rec_objective(sp, negate, rec), neighbors, minimize=minimize,
-                        temperature=case["temperature"], cooling=cooling, min_temp=case["min_temp"],
-                        max_iter=case["max_iter"], seed=case["seed"], on_progress=cb, progress_interval=interval)
+        return M.anneal(inputs["start"], rec_objective(sp, negate, rec), neighbors, minimize=minimize,
+                        seed=case["seed"], on_progress=cb, progress_interval=interval, **kw)
 
 
 def lns_ops(case):
-    sp = case["space"]
-    n = len(sp["table"]) if sp["kind"] == "line" else len(sp["w"])
+    S = Space(case["space"])
+    n = S.n
 
     def d_id(x, rng):
         return x
 
     def d_shift(x, rng):  # line: forget the position partly
-        return clamp(x + rng.choice([-1, 0, 1]), n)
+        return S.enc(clamp(S.dec(x) + rng.choice([-1, 0, 1]), n))
 
-    def d_drop(p, rng):  # perm: remove k elements
+    def d_drop(x, rng):  # perm: remove k elements
+        p = S.dec(x)
         k = rng.randint(1, max(1, n - 1))
         out = rng.sample(p, k)
         return ([e for e in p if e not in out], out)
 
     def r_dec1(x, rng):
-        return x - 1
+        return S.enc(S.dec(x) - 1)
 
     def r_step(x, rng):
-        return clamp(x + rng.choice([-2, -1, 1, 2]), n)
+        return S.enc(clamp(S.dec(x) + rng.choice([-2, -1, 1, 2]), n))
 
     def r_same(x, rng):
         return x
@@ -250,10 +389,10 @@ def lns_ops(case):
         rest, out = list(part[0]), list(part[1])
         for e in out:
             rest.insert(rng.randint(0, len(rest)), e)
-        return rest
+        return S.enc(rest)
 
     def r_sorted(part, rng):
-        return list(part[0]) + sorted(part[1])
+        return S.enc(list(part[0]) + sorted(part[1]))
 
     return {"id": d_id, "shift": d_shift, "drop": d_drop, "dec1": r_dec1, "step": r_step, "same": r_same,
             "insert": r_insert, "sorted": r_sorted}
@@ -265,10 +404,11 @@ def make_accept(spec, cb_seed):
     arng = random.Random(cb_seed + 1)
     return {"never": lambda c, n, i, r: False, "always": lambda c, n, i, r: True,
             "worse_only": lambda c, n, i, r: n > c, "coin": lambda c, n, i, r: arng.random() < 0.5,
-            "truthy": lambda c, n, i, r: (1 if n <= c else 0), "odd_iter": lambda c, n, i, r: i % 2 == 1}[spec]
+            "truthy": lambda c, n, i, r: (1 if n <= c else 0), "odd_iter": lambda c, n, i, r: i % 2 == 1,
+            "none_or_str": lambda c, n, i, r: ("yes" if n < c else None)}[spec]
 
 
-def call_lns(case, minimize, negate, rec):
+def call_lns(case, minimize, negate, rec, inputs):
     M = importlib.import_module("solvor.lns")
 
     ops = lns_ops(case)
@@ -285,83 +425,123 @@ def call_lns(case, minimize, negate, rec):
         return w
 
     cb, interval = rec_progress(case["progress"], rec)
-    common = dict(minimize=minimize, accept=make_accept(case["accept"], case["cb_seed"]), start_temp=case["start_temp"],
-                  cooling_rate=case["cooling_rate"], max_iter=case["max_iter"], max_no_improve=case["max_no_improve"],
-                  seed=case["seed"], on_progress=cb, progress_interval=interval)
+    common = dict(minimize=minimize, seed=case["seed"], on_progress=cb, progress_interval=interval)
+    if "accept" in case:
+        common["accept"] = make_accept(case["accept"], case["cb_seed"])
+    for k in ("start_temp", "cooling_rate", "max_iter", "max_no_improve"):
+        if k in case:
+            common[k] = case[k]
     with Patched(M, Random=rec_random_class(rec), _get_accept_fn=rec_get):
         if case["solver"] == "lns":
-            return M.lns(copy.deepcopy(case["start"]), rec_objective(case["space"], negate, rec), ops[case["destroy"][0]],
+            return M.lns(inputs["start"], rec_objective(case["space"], negate, rec), ops[case["destroy"][0]],
                          ops[case["repair"][0]], **common)
-        return M.alns(copy.deepcopy(case["start"]), rec_objective(case["space"], negate, rec), [ops[d] for d in case["destroy"]],
-                      [ops[r] for r in case["repair"]], segment_size=case["segment_size"], **common)
+        if "segment_size" in case:
+            common["segment_size"] = case["segment_size"]
+        seq = tuple if case.get("ops_kind") == "tuple" else list
+        return M.alns(inputs["start"], rec_objective(case["space"], negate, rec), seq(ops[d] for d in case["destroy"]),
+                      seq(ops[r] for r in case["repair"]), **common)
 
 
-def call_tabu(case, minimize, negate, rec):
+def tabu_moves(case):
+    """move keys in a fixed order: deltas (line) / index pairs (perm)"""
+    S = Space(case["space"])
+    if S.kind == "line":
+        return list(case.get("steps", [-2, -1, 1, 2]))
+    return [(i, j) for i in range(S.n) for j in range(i + 1, S.n)][: case.get("max_cands", 99)]
+
+
+def call_tabu(case, minimize, negate, rec, inputs):
     M = importlib.import_module("solvor.tabu")
 
     sp = case["space"]
-    n = len(sp["table"]) if sp["kind"] == "line" else len(sp["w"])
-    steps = case.get("steps", [-2, -1, 1, 2])
+    S = Space(sp)
+    n = S.n
+    keys = tabu_moves(case)
+    mdesc = case.get("mdesc")  # class L: one label descriptor per move key (None: the plain key)
+    ret_kind = case.get("ret_kind", "list")
+
+    def label(k):
+        return keys[k] if mdesc is None else build(mdesc[k])
 
     def neighbors(x):
-        if sp["kind"] == "line":
-            cands = []
-            for d in steps:
-                y = x[0] + d
+        p = S.dec(x)
+        cands = []
+        for k, mv in enumerate(keys):
+            if S.kind == "line":
+                y = p + mv
                 if case.get("clamp"):
                     y = clamp(y, n)
                 if 0 <= y < n:
-                    cands.append((d, [y]))
-        else:
-            cands = []
-            for i in range(n):
-                for j in range(i + 1, n):
-                    p = list(x)
-                    p[i], p[j] = p[j], p[i]
-                    cands.append(((i, j), p))
-            cands = cands[: case.get("max_cands", 99)]
-        rec.tokens.append(("nb", [(m, id(s)) for m, s in cands]))
-        rec.keep.append(cands)
-        return cands if case.get("as_list", True) else iter(cands)
+                    cands.append((label(k), S.enc(y)))
+            else:
+                q = list(p)
+                q[mv[0]], q[mv[1]] = q[mv[1]], q[mv[0]]
+                cands.append((label(k), S.enc(q)))
+        if ret_kind == "items":  # a dict view: equal labels merge, as they would for the user
+            cands = list(dict(cands).items())
+        rec.tokens.append(("nb", [m for m, _ in cands], [copy.deepcopy(s) for _, s in cands]))
+        if ret_kind == "gen":
+            return (c for c in cands)
+        if ret_kind == "tuple":
+            return tuple(cands)
+        if ret_kind == "items":
+            return dict(cands).items()
+        return cands
 
+    kw = {}
+    for k in ("cooldown", "max_iter", "max_no_improve"):
+        if k in case:
+            kw[k] = case[k]
     cb, interval = rec_progress(case["progress"], rec)
     with Patched(M, Random=rec_random_class(rec)):
-        return M.tabu_search(copy.deepcopy(case["start"]), rec_objective(sp, negate, rec), neighbors, minimize=minimize,
-                             cooldown=case["cooldown"], max_iter=case["max_iter"], max_no_improve=case["max_no_improve"],
-                             seed=case["seed"], on_progress=cb, progress_interval=interval)
+        return M.tabu_search(inputs["start"], rec_objective(sp, negate, rec), neighbors, minimize=minimize,
+                             seed=case["seed"], on_progress=cb, progress_interval=interval, **kw)
 
 
-def call_evolve(case, minimize, negate, rec):
+def call_evolve(case, minimize, negate, rec, inputs):
     M = importlib.import_module("solvor.genetic")
 
     sp = case["space"]
-    n = len(sp["table"]) if sp["kind"] == "line" else len(sp["w"])
+    S = Space(sp)
+    n = S.n
     crng = random.Random(case["cb_seed"])
 
-    def crossover(a, b):
-        if sp["kind"] == "line":
-            return crng.choice([a, b, (a + b) // 2])
+    def crossover(xa, xb):
+        a, b = S.dec(xa), S.dec(xb)
+        if S.kind == "line":
+            return S.enc(crng.choice([a, b, (a + b) // 2]))
         k = crng.randint(0, n)
         head = list(a[:k])
-        return head + [e for e in b if e not in head]
+        return S.enc(head + [e for e in b if e not in head])
 
-    def mutate(a):
-        if sp["kind"] == "line":
-            return clamp(a + crng.choice([-2, -1, 1, 2]), n)
-        p = list(a)
+    def mutate(xa):
+        a = S.dec(xa)
+        if S.kind == "line":
+            return S.enc(clamp(a + crng.choice([-2, -1, 1, 2]), n))
         i, j = crng.randrange(n), crng.randrange(n)
-        p[i], p[j] = p[j], p[i]
-        return p
+        a[i], a[j] = a[j], a[i]
+        return S.enc(a)
 
+    kw = {}
+    for k, name in (("elite_size", "elite_size"), ("mutation_rate", "mutation_rate"), ("adaptive", "adaptive_mutation"),
+                    ("max_iter", "max_iter"), ("tournament_k", "tournament_k")):
+        if k in case:
+            kw[name] = case[k]
     cb, interval = rec_progress(case["progress"], rec)
     with Patched(M, Random=rec_random_class(rec)):
-        return M.evolve(rec_objective(sp, negate, rec), copy.deepcopy(case["population"]), crossover, mutate, minimize=minimize,
-                        elite_size=case["elite_size"], mutation_rate=case["mutation_rate"],
-                        adaptive_mutation=case["adaptive"], max_iter=case["max_iter"], tournament_k=case["tournament_k"],
-                        seed=case["seed"], on_progress=cb, progress_interval=interval)
+        return M.evolve(rec_objective(sp, negate, rec), inputs["population"], crossover, mutate, minimize=minimize,
+                        seed=case["seed"], on_progress=cb, progress_interval=interval, **kw)
 
 
 CALL = {"anneal": call_anneal, "lns": call_lns, "alns": call_lns, "tabu": call_tabu, "evolve": call_evolve}
+DEFAULTS = {"anneal": {"max_iter": 100_000, "min_temp": 1e-8}, "lns": {"max_iter": 1000, "max_no_improve": 100},
+            "alns": {"max_iter": 10000, "max_no_improve": 500}, "tabu": {"max_iter": 1000, "max_no_improve": 100, "cooldown": 10},
+            "evolve": {"max_iter": 100, "elite_size": 2}}
+
+
+def opt(case, key):
+    """the option's value: given in the case or the solver's documented default (class O: default-argument calls)"""
+    return case[key] if key in case else DEFAULTS[case["solver"]][key]
 
 
 def canon_int(x):
@@ -369,17 +549,18 @@ def canon_int(x):
         return None
     if isinstance(x, int):
         return x
-    if isinstance(x, float) and x == int(x) and abs(x) < 2**53:
+    if isinstance(x, float) and x == x and abs(x) != float("inf") and x == int(x):
         return int(x)
     return None
 
 
-def run_once(case, minimize, negate):
+def run_once(case, minimize, negate, inputs=None):
     """One implementation run -> picklable record."""
     rec = Rec()
-    res = guarded(CALL[case["solver"]], case, minimize, negate, rec, timeout=5)
-    out = {"minimize": minimize, "negate": negate, "status": res[0], "tokens": [t[:3] if t[0] == "eval" else t for t in rec.tokens],
-           "log": rec.log}
+    inputs = inputs if inputs is not None else build_inputs(case)
+    res = guarded(CALL[case["solver"]], case, minimize, negate, rec, inputs, timeout=case.get("timeout", 5))
+    out = {"minimize": minimize, "negate": negate, "status": res[0], "tokens": rec.tokens, "log": rec.log,
+           "inputs_intact": inputs_equal(inputs, build_inputs(case))}
     if res[0] == "ok":
         r = res[1]
         out["result"] = {"solution": copy.deepcopy(r.solution), "objective": r.objective, "iterations": r.iterations,
@@ -390,12 +571,19 @@ def run_once(case, minimize, negate):
 
 
 def run_case(case):
-    """primary run, mirror run (other direction on -f), repeat of the primary (determinism)."""
+    """primary run, mirror run (other direction on -f), repeat of the primary (determinism) - all three on the SAME
+    caller-owned input objects; class M cases additionally the same case without offset (shift invariance)."""
     m = case["minimize"]
-    a = run_once(case, m, False)
-    b = run_once(case, not m, True)
-    c = run_once(case, m, False)
-    return a, b, c
+    inputs = build_inputs(case)
+    a = run_once(case, m, False, inputs)
+    b = run_once(case, not m, True, inputs)
+    c = run_once(case, m, False, inputs)
+    d = None
+    if case["space"].get("offset"):
+        base = copy.deepcopy(case)
+        base["space"]["offset"] = 0
+        d = run_once(base, m, False)
+    return a, b, c, d
 
 
 # ====================================================================================== independent oracle
@@ -411,31 +599,39 @@ def judge(case, run):
     except Exception as e:  # noqa: BLE001
         return f"returned solution {r['solution']!r} is not a point of the space ({type(e).__name__})"
     if r["objective"] != fx:
-        return f"reported objective {r['objective']} != f(returned solution {r['solution']}) = {fx}"
+        return f"reported objective {r['objective']!r} != f(returned solution {r['solution']!r}) = {fx}"
     vals = [v for _, v in run["log"]]
     worst = [v for v in vals if (v < r["objective"] if minimize else v > r["objective"])]
     if worst:
         k = vals.index(worst[0])
-        return (f"reported objective {r['objective']} is worse than evaluated candidate #{k} {run['log'][k][0]} "
+        return (f"reported objective {r['objective']!r} is worse than evaluated candidate #{k} {run['log'][k][0]!r} "
                 f"with f={worst[0]} ({'minimize' if minimize else 'maximize'})")
+    S = Space(case["space"])
+    s = -1 if run["negate"] else 1
     starts = case["population"] if case["solver"] == "evolve" else [case["start"]]
-    for s in starts:
-        fs = f(s)
+    for p in starts:
+        fs = s * S.value(p)
         if fs < r["objective"] if minimize else fs > r["objective"]:
-            return f"reported objective {r['objective']} is worse than start point {s} with f={fs}"
+            return f"reported objective {r['objective']!r} is worse than start point {p} with f={fs}"
     if r["evaluations"] != len(vals):
         return f"evaluations={r['evaluations']} but the objective was called {len(vals)} times"
+    if not run["inputs_intact"]:
+        return "the caller's start point / population object was modified by the solver"
     return None
+
+
+def sol_eq(x, y):
+    return type(x) is type(y) and x == y
 
 
 def judge_mirror(a, b):
     if a["status"] != "ok" or b["status"] != "ok":
         return None  # judged by `judge`
     ra, rb = a["result"], b["result"]
-    if ra["solution"] != rb["solution"] or ra["objective"] != -rb["objective"] or ra["evaluations"] != rb["evaluations"] \
+    if not sol_eq(ra["solution"], rb["solution"]) or ra["objective"] != -rb["objective"] or ra["evaluations"] != rb["evaluations"] \
             or ra["iterations"] != rb["iterations"]:
-        return (f"mirror broken: {'min' if a['minimize'] else 'max'} f -> ({ra['solution']}, {ra['objective']}, evals {ra['evaluations']}, "
-                f"it {ra['iterations']}) but {'min' if b['minimize'] else 'max'} -f -> ({rb['solution']}, {rb['objective']}, "
+        return (f"mirror broken: {'min' if a['minimize'] else 'max'} f -> ({ra['solution']!r}, {ra['objective']!r}, evals {ra['evaluations']}, "
+                f"it {ra['iterations']}) but {'min' if b['minimize'] else 'max'} -f -> ({rb['solution']!r}, {rb['objective']!r}, "
                 f"evals {rb['evaluations']}, it {rb['iterations']})")
     return None
 
@@ -445,9 +641,39 @@ def judge_det(a, c):
         return f"same seed twice: {a['status']} vs {c['status']}"
     if a["status"] != "ok":
         return None
-    if a["result"] != c["result"] or [v for _, v in a["log"]] != [v for _, v in c["log"]]:
-        return f"same seed twice gives different results: {a['result']} vs {c['result']}"
+    if a["result"] != c["result"] or not sol_eq(a["result"]["solution"], c["result"]["solution"]) \
+            or [v for _, v in a["log"]] != [v for _, v in c["log"]]:
+        return f"same seed, same input objects, second call gives a different result: {a['result']} vs {c['result']}"
     return None
+
+
+def judge_shift(case, a, d):
+    """class M: adding a constant to an exact-integer objective changes no comparison and no difference:
+    same trajectory, objective shifted by exactly that constant."""
+    if d is None or a["status"] != "ok" or d["status"] != "ok":
+        return None
+    off = case["space"]["offset"]
+    ra, rd = a["result"], d["result"]
+    if not sol_eq(ra["solution"], rd["solution"]) or ra["objective"] != rd["objective"] + off or ra["evaluations"] != rd["evaluations"] \
+            or ra["iterations"] != rd["iterations"] or [v for _, v in a["log"]] != [v + off for _, v in d["log"]]:
+        return (f"shift invariance broken: f+{off} -> ({ra['solution']!r}, {ra['objective']!r}, evals {ra['evaluations']}, it {ra['iterations']}) "
+                f"but f -> ({rd['solution']!r}, {rd['objective']!r}, evals {rd['evaluations']}, it {rd['iterations']})")
+    return None
+
+
+def judge_all(case, runs):
+    """every oracle clause on the runs of one case: list of (tag, description)"""
+    a, b, c, d = runs
+    out = []
+    for tag, rr in (("primary", a), ("mirror", b)):
+        w = judge(case, rr)
+        if w:
+            out.append((tag, rr, w))
+    if case["seed"] is not None:  # seed=None: fresh entropy per run, only the per-run clauses apply
+        for w in (judge_mirror(a, b), judge_det(a, c), judge_shift(case, a, d)):
+            if w:
+                out.append(("relation", a, w))
+    return out
 
 
 # ====================================================================================== trace -> events
@@ -478,7 +704,7 @@ def ev_anneal(case, run):
     evs = []
     while not tk.done():
         t = tk.take("temp")[1]
-        if t < case["min_temp"]:
+        if t < opt(case, "min_temp"):
             evs.append("ACold")
             break
         u = tk.take("eval")[1]
@@ -495,7 +721,7 @@ def ev_anneal(case, run):
 
 
 def ev_lns(case, run):
-    toks = [t for t in run["tokens"] if t[0] != "draw"]
+    toks = [t for t in run["tokens"] if t[0] not in ("draw", "shuf")]
     tk = Toks(toks)
     sign = 1 if run["minimize"] else -1
     u0 = tk.take("eval")[1]
@@ -514,38 +740,52 @@ def ev_lns(case, run):
     return u0, evs
 
 
-def ev_tabu(case, run):
+def tabu_rows(case, run):
+    """per iteration: [(move number, value)] in evaluation order + stop bit.  Moves are numbered by first occurrence
+    under Python's own hash/== (what the tabu set sees), whatever objects the labels are."""
     toks = [t for t in run["tokens"] if t[0] != "draw"]
     tk = Toks(toks)
     u0 = tk.take("eval")[1]
     names = {}
-    evs = []
+    rows = []
+    k = 1
     while not tk.done():
-        cands = tk.take("nb")[1]
-        by_id = {}
-        for mv, oid in cands:
-            by_id[oid] = names.setdefault(mv, len(names))
-        if len(by_id) != len(cands):
-            raise TraceShape("neighbour objects not distinct")
+        _, labels, sols = tk.take("nb")
+        ids = [names.setdefault(mv, len(names)) for mv in labels]
+        if not labels:
+            rows.append(([], False))
+            break
+        perm = tk.take("shuf")[1]
+        if sorted(perm) != list(range(len(labels))):
+            raise TraceShape("shuffle of something else than the candidate list")
         row = []
-        for _ in cands:
+        for j in perm:
             t = tk.take("eval")
-            if t[2] not in by_id:
-                raise TraceShape("evaluated object is not one of the candidates")
-            row.append((by_id.pop(t[2]), t[1]))
+            pt = run["log"][k][0]
+            k += 1
+            if not sol_eq(pt, sols[j]):
+                raise TraceShape("evaluated point is not the candidate the shuffle put there")
+            row.append((ids[j], t[1]))
         stop = tk.take("prog")[1] if tk.peek() == "prog" else False
-        evs.append("mkT " + clist(row, lambda c: f"({cnat(c[0])}, {cz(c[1])})") + " " + cbool(stop))
-    return u0, evs
+        rows.append((row, stop))
+    if not tk.done():
+        raise TraceShape("tokens after the loop was left")
+    return u0, rows
+
+
+def ev_tabu(case, run):
+    u0, rows = tabu_rows(case, run)
+    return u0, ["mkT " + clist(row, lambda c: f"({cnat(c[0])}, {cz(c[1])})") + " " + cbool(stop) for row, stop in rows]
 
 
 def ev_evolve(case, run):
-    toks = [t for t in run["tokens"] if t[0] != "draw"]
+    toks = [t for t in run["tokens"] if t[0] not in ("draw", "shuf")]
     n = len(case["population"])
-    need = n - min(max(case["elite_size"], 0), n)  # children per generation: while len(new_pop) < pop_size
+    need = n - min(max(opt(case, "elite_size"), 0), n)  # children per generation: while len(new_pop) < pop_size
     tk = Toks(toks)
     us0 = [tk.take("eval")[1] for _ in range(n)]
     stops = [t for t in toks if t[0] == "prog" and t[1]]
-    gens = stops[0][2] if stops else case["max_iter"]  # generation whose call-back asked to stop, else all
+    gens = stops[0][2] if stops else opt(case, "max_iter")  # generation whose call-back asked to stop, else all
     evs = []
     for g in range(1, gens + 1):
         kids = [tk.take("eval")[1] for _ in range(need)]
@@ -563,7 +803,7 @@ def observed(run):
     obj = canon_int(r["objective"])
     if obj is None:
         raise TraceShape(f"non-integral objective {r['objective']!r}")
-    ids = [i for i, (pt, _) in enumerate(run["log"]) if pt == r["solution"] and type(pt) is type(r["solution"])]
+    ids = [i for i, (pt, _) in enumerate(run["log"]) if sol_eq(pt, r["solution"])]
     return f"(mkObs {clist(ids, cnat)} {cz(obj)} {cnat(r['evaluations'])} {cnat(r['iterations'])})"
 
 
@@ -576,61 +816,273 @@ def coq_case(case, run, pinned=False):
     spec = f"SpecCase {m} {us} {obs}"
     if s == "anneal":
         u0, evs = ev_anneal(case, run)
-        return s, f"ACase {m} {cnat(case['max_iter'])} {cz(u0)} {clist(evs, lambda e: '(' + e + ')')} {us} {obs}", spec
+        return s, f"ACase {m} {cnat(opt(case, 'max_iter'))} {cz(u0)} {clist(evs, lambda e: '(' + e + ')')} {us} {obs}", spec
     if s in ("lns", "alns"):
         u0, evs = ev_lns(case, run)
         which = 1 if s == "alns" else (2 if pinned else 0)
-        return "lns", (f"LCase {which} {m} {cnat(case['max_iter'])} {cz(case['max_no_improve'])} {cz(u0)} "
+        return "lns", (f"LCase {which} {m} {cnat(opt(case, 'max_iter'))} {cz(opt(case, 'max_no_improve'))} {cz(u0)} "
                        f"{clist(evs, lambda e: '(' + e + ')')} {us} {obs}"), spec
     if s == "tabu":
         u0, evs = ev_tabu(case, run)
-        return s, (f"TCase {m} {cnat(case['cooldown'])} {cnat(case['max_iter'])} {cz(case['max_no_improve'])} {cz(u0)} "
+        return s, (f"TCase {m} {cnat(opt(case, 'cooldown'))} {cnat(opt(case, 'max_iter'))} {cz(opt(case, 'max_no_improve'))} {cz(u0)} "
                    f"{clist(evs, lambda e: '(' + e + ')')} {us} {obs}"), spec
     us0, evs = ev_evolve(case, run)
-    return s, (f"GCase {m} {cnat(max(case['elite_size'], 0))} {cnat(case['max_iter'])} {clist(us0, cz)} "
+    return s, (f"GCase {m} {cnat(max(opt(case, 'elite_size'), 0))} {cnat(opt(case, 'max_iter'))} {clist(us0, cz)} "
                f"{clist(evs, lambda e: '(' + e + ')')} {us} {obs}"), spec
 
 
 CORR = {"anneal": ("acase", "anneal_corr"), "lns": ("lcase", "lns_corr"), "tabu": ("tcase", "tabu_corr"),
         "evolve": ("gcase", "evolve_corr")}
 IMPORTS = "From SV Require Import C19.Common C19.A_Anneal C19.A_Lns C19.A_Tabu C19.A_Evolve C19.A_Check.\nOpen Scope Z_scope."
+COQ_MAX_EVALS = 400  # larger traces (class S) are judged by the Python oracle only
 
 
 # ====================================================================================== generators
-def gen_case(rng, solver, big=False):
+ACCEPTS = ["improving", "accept_all", "simulated_annealing", "simulated_annealing", "never", "always", "worse_only", "coin", "truthy",
+           "odd_iter", "none_or_str"]
+
+
+def gen_mdesc(rng, nkeys, kind=None):
+    """class L: labels of the tabu moves (None = the plain keys)"""
+    kind = kind or rng.choice(["plain", "plain", "none_all", "pool", "collide", "fresh", "bigint"])
+    if kind == "plain" or nkeys == 0:
+        return None
+    if kind == "none_all":
+        return [["none"]] * nkeys
+    if kind == "pool":
+        return gen_labels(rng, nkeys)
+    if kind == "collide":
+        two = gen_labels(rng, 2)
+        return [rng.choice(two) for _ in range(nkeys)]
+    if kind == "fresh":
+        return [["tuple", [["str", "mv"], ["int", k]]] for k in range(nkeys)]
+    return [["int", 1000 + k] for k in range(nkeys)]
+
+
+def gen_case(rng, solver, big=False, enc=None, space_kind=None):
     max_iter = rng.choice([0, 1, 2, 3, 5, 8, 8, 12, 12, 20, 20, 30, 30, 40] + ([45, 60, 60] if big else []))
-    case = {"solver": solver, "seed": rng.choice([0, 1, 2, 7, 42, rng.randrange(10**6), rng.randrange(10**6), None if rng.random() < 0.3 else 3]), "cb_seed": rng.randrange(10**6),
-            "minimize": rng.random() < 0.5, "max_iter": max_iter, "progress": gen_progress(rng, max_iter)}
+    case = {"solver": solver, "family": "rand",
+            "seed": rng.choice([0, 1, 2, 7, 42, rng.randrange(10**6), rng.randrange(10**6), None if rng.random() < 0.3 else 3]),
+            "cb_seed": rng.randrange(10**6), "minimize": rng.random() < 0.5, "max_iter": max_iter, "progress": gen_progress(rng, max_iter)}
+    sp = gen_space(rng, space_kind, enc)
+    if sp.get("enc") == "pool" and solver == "tabu":  # tabu_search reserves None as "no neighbour" (noted in the report)
+        sp["labels"] = gen_labels(rng, len(sp["table"]), allow_none=False)
     if solver == "anneal":
-        sp = gen_space(rng)
         case.update(space=sp, start=gen_start(rng, sp), temperature=rng.choice([0.5, 1.0, 3.0, 10.0, 1000.0]),
                     cooling=rng.choice([["float", 0.5], ["float", 0.9], ["float", 0.9995], ["exp", 0.7], ["lin", 0.01], ["lin", 0.5],
                                         ["log", 1.0], ["log", 5.0]]),
                     min_temp=rng.choice([1e-8, 1e-8, 0.05, 0.3, 1.0]), steps=rng.choice([[1], [1, 2], [1, 2, 3]]))
     elif solver in ("lns", "alns"):
-        sp = gen_space(rng)
         line = sp["kind"] == "line"
         dpool, rpool = (["id", "shift"], ["step", "same", "step"]) if line else (["drop"], ["insert", "sorted"])
         nd, nr = (1, 1) if solver == "lns" else (rng.randint(1, 3), rng.randint(1, 2))
         case.update(space=sp, start=gen_start(rng, sp), destroy=[rng.choice(dpool) for _ in range(nd)],
-                    repair=[rng.choice(rpool) for _ in range(nr)],
-                    accept=rng.choice(["improving", "accept_all", "simulated_annealing", "simulated_annealing", "never", "always",
-                                       "worse_only", "coin", "truthy", "odd_iter"]),
+                    repair=[rng.choice(rpool) for _ in range(nr)], accept=rng.choice(ACCEPTS),
                     start_temp=rng.choice([0.5, 2.0, 100.0]), cooling_rate=rng.choice([0.5, 0.9, 0.9995]),
-                    max_no_improve=rng.choice([0, 1, 2, 3, 5, 10, 10, 100, 100, 100]), segment_size=rng.choice([1, 2, 3, 5, 100]))
+                    max_no_improve=rng.choice([0, 1, 2, 3, 5, 10, 10, 100, 100, 100]), segment_size=rng.choice([1, 2, 3, 5, 100]),
+                    ops_kind=rng.choice(["list", "list", "tuple"]))
     elif solver == "tabu":
-        sp = gen_space(rng)
-        case.update(space=sp, start=gen_start(rng, sp, boxed=True), cooldown=rng.choice([1, 1, 2, 3, 5, 10]),
+        case.update(space=sp, start=gen_start(rng, sp), cooldown=rng.choice([1, 1, 2, 3, 5, 10]),
                     max_no_improve=rng.choice([0, 1, 2, 3, 5, 10, 10, 100, 100, 100]),
                     steps=rng.choice([[-1, 1], [-2, -1, 1, 2], [1, 2], [-1, 1, 3], [0, 1, -1]]), clamp=rng.random() < 0.3,
-                    as_list=rng.random() < 0.8, max_cands=rng.choice([99, 99, 3, 0]))
+                    ret_kind=rng.choice(["list", "list", "list", "gen", "tuple", "items"]), max_cands=rng.choice([99, 99, 3, 0]))
+        case["mdesc"] = gen_mdesc(rng, len(tabu_moves(case)))
     else:
-        sp = gen_space(rng)
         n = rng.choice([1, 2, 3, 4, 6, 8])
         case.update(space=sp, population=[gen_start(rng, sp) for _ in range(n)], elite_size=rng.choice([0, 1, 2, 2, 3, n, n + 1]),
                     mutation_rate=rng.choice([0.0, 0.1, 0.5, 1.0]), adaptive=rng.random() < 0.4,
-                    tournament_k=rng.choice([1, 2, 3, 5]), max_iter=rng.choice([0, 1, 2, 3, 5, 8, 12] + ([25] if big else [])))
+                    tournament_k=rng.choice([1, 2, 3, 5]), max_iter=rng.choice([0, 1, 2, 3, 5, 8, 12] + ([25] if big else [])),
+                    pop_kind=rng.choice(["list", "list", "tuple"]))
         case["progress"] = gen_progress(rng, case["max_iter"])
+    return case
+
+
+HUGE = [2**31, 10**9, 2**53 - 1, 2**53, 2**53 + 1, 2**60, 10**18, -(2**60), -(2**53 + 1), 2**44 + 1, 2**64 + 3, 2**31 - 1]
+
+
+def fam_L(rng, solver, big):
+    """labels: points that are None / falsy / mixed-type / rebuilt on every call; tabu moves labelled the same way"""
+    case = gen_case(rng, solver, big, enc="pool", space_kind="line")
+    case["family"] = "L"
+    if solver == "tabu":
+        case["mdesc"] = gen_mdesc(rng, len(tabu_moves(case)), rng.choice(["none_all", "none_all", "pool", "pool", "collide", "fresh", "bigint"]))
+        case["max_iter"] = max(case["max_iter"], 3)
+    return case
+
+
+def fam_M(rng, solver, big):
+    """magnitudes: exact integer objectives far beyond 2^53 (and exactly representable integral floats there)"""
+    case = gen_case(rng, solver, big)
+    case["family"] = "M"
+    sp = case["space"]
+    if rng.random() < 0.2:  # integral floats at 2^60: spacing 256, every table value a multiple of it
+        sp.update(offset=rng.choice([2**60, -(2**60), 2**53]), scale=256 * rng.choice([1, 2, 5]), float=True)
+    else:
+        sp.update(offset=rng.choice(HUGE), scale=rng.choice([1, 1, 1, 1, 3, 2**31, 10**9]), float=False)
+    if case["seed"] is None:
+        case["seed"] = rng.randrange(10**6)
+    case["max_iter"] = max(case["max_iter"], 3)
+    return case
+
+
+def fam_I(rng, solver, big):
+    """iterables: one-shot generators / tuples / dict views / ranges where the API accepts them"""
+    case = gen_case(rng, solver, big, enc="int" if solver == "evolve" else None)
+    case["family"] = "I"
+    if solver == "tabu":
+        case["ret_kind"] = rng.choice(["gen", "gen", "tuple", "items"])
+        case["max_iter"] = max(case["max_iter"], 2)
+    elif solver == "evolve":
+        if case["space"]["kind"] == "line" and rng.random() < 0.5:
+            k = rng.randint(1, len(case["space"]["table"]))
+            case["population"] = list(range(k))
+            case["pop_kind"] = "range"
+        else:
+            case["pop_kind"] = "tuple"
+    elif solver == "alns":
+        case["ops_kind"] = "tuple"
+    else:
+        return None
+    return case
+
+
+def fam_O(rng, solver, big):
+    """option corners: one base instance, one option swept over 0, 1, small values, default-1, default, default+1"""
+    base = gen_case(rng, solver, big)
+    base.update(family="O", seed=rng.randrange(10**6), progress=None)
+    out = []
+
+    def var(**kw):
+        c = copy.deepcopy(base)
+        c.update(kw)
+        out.append(c)
+
+    what = rng.choice({"anneal": ["max_iter", "progress", "temp"], "lns": ["max_iter", "mni", "progress"],
+                       "alns": ["max_iter", "mni", "segment", "progress"], "tabu": ["max_iter", "cooldown", "mni", "progress"],
+                       "evolve": ["max_iter", "elite", "tournament", "popsize", "progress"]}[solver])
+    if solver in ("lns", "alns", "tabu"):
+        base["max_no_improve"] = 100
+    if what == "max_iter":
+        for mi in range(0, 26 if solver == "evolve" else 42):
+            var(max_iter=mi)
+    elif what == "progress":
+        base["max_iter"] = 12
+        for interval in range(0, 8):
+            for stop_at in (None, 1, rng.randint(1, 12), 12):
+                var(progress={"interval": interval, "stop_at": stop_at, "ret": "True"})
+    elif what == "temp":
+        base["max_iter"] = 15
+        for t in (1e-9, 1e-8, 2e-8, 0.5, 1.0, 1000.0):
+            for mt in (0.0, 1e-8, 0.4, 1.0):
+                # (min_temp=0 with a schedule that reaches temperature 0 divides by zero in exp(-delta/T) on the unchanged
+                #  code - reported as a finding, outside C19's statement; not generated)
+                var(temperature=t, min_temp=mt, cooling=rng.choice([["float", 0.5], ["float", 0.9995]] + ([["lin", mt]] if mt > 0 else [])))
+    elif what == "mni":
+        # a constant objective never improves: the run must stop exactly at max_no_improve
+        base["space"] = {"kind": "line", "table": [rng.randint(-3, 3)] * 6, "float": False, "enc": "int"}
+        base["start"] = rng.randrange(6)
+        if solver != "tabu":
+            base.update(destroy=["id"], repair=["step"])
+        else:
+            base["mdesc"] = None
+            base["steps"] = [-1, 1]
+        for mni in (0, 1, 2, 3, 4, 5, 6, 99, 100, 101):
+            for mi in (mni + 30, max(mni, 1), max(mni - 1, 0)):
+                var(max_no_improve=mni, max_iter=mi)
+        c = copy.deepcopy(base)
+        c["max_iter"] = 130 if solver != "alns" else 520
+        del c["max_no_improve"]  # the default
+        out.append(c)
+    elif what == "segment":
+        base["max_iter"] = 25
+        for seg in (1, 2, 3, 4, 5, 24, 25, 26):
+            var(segment_size=seg)
+        var(segment_size=100, max_iter=205, max_no_improve=500)
+    elif what == "cooldown":
+        base["max_iter"] = 30
+        for cd in list(range(1, 14)):
+            var(cooldown=cd)
+        c = copy.deepcopy(base)
+        del c["cooldown"]
+        out.append(c)
+    elif what == "elite":
+        for e in range(0, len(base["population"]) + 3):
+            var(elite_size=e)
+        c = copy.deepcopy(base)
+        del c["elite_size"]
+        out.append(c)
+    elif what == "tournament":
+        for k in range(1, len(base["population"]) + 3):
+            var(tournament_k=k)
+    elif what == "popsize":
+        sp = base["space"]
+        for n in range(1, 11):
+            var(population=[gen_start(rng, sp) for _ in range(n)], elite_size=rng.choice([0, 1, 2, n]))
+    return out
+
+
+def fam_defaults(rng, solver):
+    """class O: every option left at its documented default (only the required arguments are passed)"""
+    c = gen_case(rng, solver)
+    c.update(family="O-default", seed=rng.randrange(10**6), progress=None, timeout=30)
+    for k in ("max_iter", "temperature", "cooling", "min_temp", "accept", "start_temp", "cooling_rate", "max_no_improve", "segment_size",
+              "cooldown", "elite_size", "mutation_rate", "adaptive", "tournament_k"):
+        c.pop(k, None)
+    return c
+
+
+def fam_S(rng, solver, big):
+    """size thresholds: a few large instances (candidates per iteration, population, iterations); judged by the
+    recorded-log oracle, in the Coq correspondence only while the trace stays small"""
+    sizes = [17, 65, 257] + ([801, 1025, 2049] if big else [rng.choice([801, 1025])])
+    k = rng.choice(sizes)
+    case = gen_case(rng, solver, big, space_kind="line")
+    case.update(family="S", seed=rng.randrange(10**6), timeout=30, progress=rng.choice([None, {"interval": 64, "stop_at": None, "ret": "None"}]))
+    if solver == "tabu":
+        n = 2 * k + 50
+        case["space"] = {"kind": "line", "table": [rng.randint(-50, 50) for _ in range(n)], "float": False, "enc": rng.choice(["int", "big", "str"])}
+        case.update(start=n // 2, steps=[d for d in range(-(k // 2), k - k // 2 + 1) if d != 0][:k], clamp=False, max_iter=3, cooldown=10,
+                    max_no_improve=100, ret_kind=rng.choice(["list", "gen"]))
+        case["mdesc"] = gen_mdesc(rng, len(case["steps"]), rng.choice(["plain", "fresh", "bigint"]))
+    elif solver == "evolve":
+        n = 64
+        case["space"] = {"kind": "line", "table": gen_table(rng, n), "float": False, "enc": "int"}
+        case.update(population=[rng.randrange(n) for _ in range(k)], elite_size=rng.choice([0, 2, k - 1]), max_iter=3, tournament_k=3)
+    else:
+        mi = k if not (big and solver == "anneal" and rng.random() < 0.3) else 65537
+        case.update(max_iter=mi)
+        if solver == "anneal":
+            case.update(temperature=1000.0, cooling=["float", 0.9995], min_temp=1e-8)
+        else:
+            case.update(max_no_improve=mi + 1, accept=rng.choice(["simulated_annealing", "accept_all", "coin"]), segment_size=100)
+    return case
+
+
+def fam_H(rng, solver, big):
+    """rare histories: families that drive the loops into their corner branches (see events_of)"""
+    if solver == "tabu":
+        case = gen_case(rng, solver, big, space_kind="line")
+        n = rng.choice([2, 3, 4, 5])
+        case["space"] = {"kind": "line", "table": gen_table(rng, n), "float": False, "enc": rng.choice(["int", "list", "str"])}
+        case.update(start=rng.randrange(n), steps=rng.choice([[-1, 1], [-1, 1, 0], [1], [-1, 1, 2]]), clamp=rng.random() < 0.6,
+                    cooldown=rng.choice([1, 2, 3, 4, 6]), max_iter=rng.choice([10, 20, 30]), max_no_improve=100)
+        case["mdesc"] = gen_mdesc(rng, len(case["steps"]))
+    elif solver == "anneal":
+        case = gen_case(rng, solver, big)
+        hot = rng.random() < 0.5
+        case.update(temperature=1000.0 if hot else rng.choice([0.5, 1.0]), cooling=["float", 0.9995] if hot else ["float", rng.choice([0.5, 0.7])],
+                    min_temp=1e-8 if hot else rng.choice([0.05, 0.2]), max_iter=rng.choice([15, 30, 40]))
+    elif solver in ("lns", "alns"):
+        case = gen_case(rng, solver, big)
+        case.update(accept=rng.choice(["never", "worse_only", "odd_iter", "none_or_str", "coin"]), max_iter=rng.choice([10, 20, 30]),
+                    max_no_improve=rng.choice([3, 100]), segment_size=rng.choice([1, 2, 3]))
+    else:
+        case = gen_case(rng, solver, big)
+        n = rng.choice([2, 3, 4])
+        case.update(population=[gen_start(rng, case["space"]) for _ in range(n)], elite_size=rng.choice([0, 0, 1]),
+                    mutation_rate=1.0, max_iter=rng.choice([5, 8, 12]))
+    case["family"] = "H"
+    case["progress"] = gen_progress(rng, case["max_iter"])
     return case
 
 
@@ -641,13 +1093,14 @@ def corpus_cases():
         for f in sorted(d.glob("*.json")):
             o = json.loads(f.read_text())
             if o.get("part", "A") == "A" and "solver" in o:
+                o.setdefault("family", "corpus")
                 out.append(o)
     return out
 
 
 def rejected_improvement(case, run):
-    """lns: accept() answered False on a candidate better than the best so far (class of the lns finding)."""
-    if case["solver"] != "lns" or run["status"] != "ok":
+    """lns/alns: accept() answered False on a candidate better than the best so far (class of the lns finding)."""
+    if case["solver"] not in ("lns", "alns") or run["status"] != "ok":
         return False
     sign = 1 if run["minimize"] else -1
     toks = [t for t in run["tokens"] if t[0] in ("eval", "acc")]
@@ -665,6 +1118,88 @@ def rejected_improvement(case, run):
     return False
 
 
+def events_of(case, run):
+    """class H: which rare branches of the loops this run went through (histogram only - never judged)."""
+    ev = set()
+    if run["status"] != "ok":
+        return ev
+    s = case["solver"]
+    toks = run["tokens"]
+    sign = 1 if run["minimize"] else -1
+    if any(t[0] == "prog" and t[1] for t in toks):
+        ev.add("progress_stop")
+    its, mi = run["result"]["iterations"], opt(case, "max_iter")
+    if its == mi and any(t[0] == "prog" and t[1] and t[2] == mi for t in toks):
+        ev.add("progress_stop_at_last_iteration")
+    try:
+        if s == "anneal":
+            xs = [sign * t[1] for t in toks if t[0] == "eval"]
+            if any(t[0] == "temp" and t[1] < opt(case, "min_temp") for t in toks):
+                ev.add("anneal_cold_stop")
+            for i, t in enumerate(toks):
+                if t[0] == "draw" and i + 1 < len(toks) and toks[i + 1][0] == "exp":
+                    ev.add("anneal_uphill_accepted" if t[1] < toks[i + 1][1] else "anneal_uphill_rejected")
+            if xs and xs.index(min(xs)) < len(xs) - 1 and "anneal_uphill_accepted" in ev:
+                ev.add("anneal_worse_accepted_after_best")
+        elif s in ("lns", "alns"):
+            if rejected_improvement(case, run):
+                ev.add(s + "_accept_rejects_new_best")
+            if its < mi and "progress_stop" not in ev:
+                ev.add(s + "_no_improve_break")
+            if s == "alns" and its >= case.get("segment_size", 100):
+                ev.add("alns_weights_updated")
+        elif s == "tabu":
+            u0, rows = tabu_rows(case, run)
+            cd = opt(case, "cooldown")
+            best, tl, ts = sign * u0, [], set()
+            for row, stop in rows:
+                if not row:
+                    ev.add("tabu_empty_candidates")
+                    break
+                bn = None
+                for mv, u in row:
+                    x = sign * u
+                    if mv in ts and x >= best:
+                        continue
+                    if bn is None or x < bn[0]:
+                        bn = (x, mv)
+                if bn is None:
+                    ev.add("tabu_all_candidates_tabu")
+                    break
+                if bn[1] in ts:
+                    ev.add("tabu_aspiration")
+                if len(tl) == cd:
+                    ts.discard(tl[0])
+                    tl = tl[1:]
+                tl.append(bn[1])
+                ts.add(bn[1])
+                if ts != set(tl):
+                    ev.add("tabu_set_deque_drift")
+                if bn[0] < best:
+                    best = bn[0]
+                else:
+                    ev.add("tabu_non_improving_move")
+            if its < mi and "progress_stop" not in ev and not ev & {"tabu_empty_candidates", "tabu_all_candidates_tabu"}:
+                ev.add("tabu_no_improve_break")
+            if any(t[0] == "nb" and any(m is None for m in t[1]) for t in toks):
+                ev.add("tabu_none_move_label")
+        else:
+            n = len(case["population"])
+            e = min(max(opt(case, "elite_size"), 0), n)
+            if e == n:
+                ev.add("evolve_no_children")
+            if e == 0:
+                ev.add("evolve_no_elite")
+            xs = [sign * v for _, v in run["log"]]
+            if xs and xs.index(min(xs)) >= n:
+                ev.add("evolve_best_is_a_child")
+            if xs and xs.count(min(xs)) > 1:
+                ev.add("evolve_tie_for_best")
+    except TraceShape:
+        ev.add("trace_shape")
+    return ev
+
+
 def nontrivial(case, run):
     """a run in which a worse-or-equal point was evaluated after the best one, or the best is not the start."""
     if run["status"] != "ok" or len(run["log"]) < 3:
@@ -676,11 +1211,31 @@ def nontrivial(case, run):
     return b > 0 or any(x > xs[0] for x in xs)
 
 
+def shrink(case):
+    """cheap minimisation of a failing case: fewer iterations while any oracle clause still fails"""
+    cur = case
+    if "max_iter" not in cur:
+        return cur
+    for mi in sorted({0, 1, 2, 3, 5, 8, 12, 20}):
+        if mi >= cur["max_iter"]:
+            break
+        c = copy.deepcopy(cur)
+        c["max_iter"] = mi
+        if c.get("progress") and c["progress"].get("stop_at"):
+            c["progress"]["stop_at"] = min(c["progress"]["stop_at"], max(mi, 1))
+        if judge_all(c, run_case(c)):
+            return c
+    return cur
+
+
 # ====================================================================================== the check
 def run(ctx: Ctx):
     ctx.rule = ("anneal/tabu_search/lns/alns/evolve on integer lookup-table objectives (line of 1..16 cells, permutations of 3..5; "
-                "ties, plateaus, discontinuities, constants), random seeds, max_iter 0..30 (..60 thorough), all accept rules incl. "
-                "custom ones, progress call-backs that stop; each case run as (dir f), (other dir, -f), (dir f) again; "
+                "ties, plateaus, discontinuities, constants), random seeds, max_iter 0..40 (..60 thorough), all accept rules incl. "
+                "custom ones, progress call-backs that stop; each case run as (dir f), (other dir, -f), (dir f) again on the same "
+                "input objects; plus families L (None/falsy/mixed/fresh labels for points and tabu moves), I (generators, tuples, dict "
+                "views, ranges), S (17..2049 candidates / individuals / iterations), M (exact objectives up to 2^64, shift invariance), "
+                "O (option sweeps, default-argument calls), A (inputs intact, shared inputs), H (directed rare branches); "
                 "non-trivial = >=3 evaluations and the best point is not the start or a worse point was evaluated; "
                 "distinct = canonical JSON of the case")
     ctx.proof_step(["C19"])
@@ -690,46 +1245,71 @@ def run(ctx: Ctx):
     run_part_a(ctx)
     if _partb is not None and hasattr(_partb, "run_part") and not only_a:
         _partb.run_part(ctx)
+    if not only_a:
+        from harness.props import C19_shapes
+
+        C19_shapes.run_shapes(ctx)
+
+
+def all_cases(ctx):
+    big = ctx.tier == "thorough"
+    rng = ctx.rng
+    cases = corpus_cases()
+    per = ctx.budget(140, 2500)
+    fam = ctx.budget(1, 12)
+    for s in SOLVERS:
+        cases += [gen_case(rng, s, big) for _ in range(per)]
+        cases += [fam_L(rng, s, big) for _ in range(30 * fam)]
+        cases += [fam_M(rng, s, big) for _ in range(30 * fam)]
+        cases += [c for c in (fam_I(rng, s, big) for _ in range(16 * fam)) if c]
+        cases += [fam_H(rng, s, big) for _ in range(30 * fam)]
+        for _ in range(fam):
+            cases += fam_O(rng, s, big)
+        cases += [fam_S(rng, s, big) for _ in range(2 if not big else 8)]
+    cases += [fam_defaults(rng, s) for s in rng.sample(SOLVERS, 2 if not big else 5)]
+    return cases
 
 
 def run_part_a(ctx: Ctx):
-    big = ctx.tier == "thorough"
-    per = ctx.budget(200, 2500)
-    cases = corpus_cases()
-    for s in SOLVERS:
-        cases += [gen_case(ctx.rng, s, big) for _ in range(per)]
+    cases = all_cases(ctx)
     known = {f["id"] for f in ctx.open_findings()}
     results = pmap(run_case, cases)
     terms = {k: [] for k in CORR}
     metas = {k: [] for k in CORR}
     specs, spec_meta = [], []
     shape_fail = []
-    for case, (a, b, c) in zip(cases, results):
-        ctx.evaluations += 3
+    for case, runs in zip(cases, results):
+        a, b = runs[0], runs[1]
+        ctx.evaluations += 3 + (runs[3] is not None)
         ctx.count("solver", case["solver"])
-        ctx.count("max_iter", case["max_iter"])
+        ctx.count("family", case["family"])
+        ctx.count("max_iter", min(opt(case, "max_iter"), 100))
+        ctx.count("point_encoding", case["space"].get("enc", "-"))
         ctx.count("status", a["status"] if a["status"] != "ok" else a["result"]["status"])
+        for e in events_of(case, a):
+            ctx.count("event", e)
         if a["status"] == "ok":
             ctx.count("evals_bucket", min(len(a["log"]) // 10 * 10, 100))
-            ctx.count("iters_vs_max", "early" if a["result"]["iterations"] < case["max_iter"] else "full")
-        bad = None
-        for tag, rr in (("primary", a), ("mirror", b)):
-            w = judge(case, rr)
-            if w:
-                if KNOWN_LNS in known and rejected_improvement(case, rr) and "worse than evaluated" in w:
-                    ctx.known_hit(KNOWN_LNS, f"{w} (case seed {case['seed']})")
-                    continue
-                bad = bad or f"{case['solver']} {tag} run: {w}"
-        if case["seed"] is not None:  # seed=None: fresh entropy per run, only the per-run clauses apply
-            bad = bad or judge_mirror(a, b) and f"{case['solver']}: {judge_mirror(a, b)}"
-            bad = bad or judge_det(a, c) and f"{case['solver']}: {judge_det(a, c)}"
-        if bad:
-            ctx.violation(bad, {"case": case, "impl": {"primary": a.get("result") or a.get("error"), "mirror": b.get("result") or b.get("error")}})
+            ctx.count("iters_vs_max", "early" if a["result"]["iterations"] < opt(case, "max_iter") else "full")
+        bads = []
+        for tag, rr, w in judge_all(case, runs):
+            if KNOWN_LNS in known and rejected_improvement(case, rr) and "worse than evaluated" in w:
+                ctx.known_hit(KNOWN_LNS, f"{w} (case seed {case['seed']})")
+                continue
+            bads.append(f"{case['solver']} [{case['family']}] {tag}: {w}")
+        if bads and len(ctx.violations) < 8:
+            small = shrink(case)
+            sr = run_case(small)
+            sb = [f"{small['solver']} [{small['family']}] {tag}: {w}" for tag, rr, w in judge_all(small, sr)] or bads
+            ctx.violation(sb[0], {"case": small, "impl": {"primary": sr[0].get("result") or sr[0].get("error"),
+                                                          "mirror": sr[1].get("result") or sr[1].get("error")}})
+        elif bads:
+            ctx.violation(bads[0], {"case": case, "impl": {"primary": a.get("result") or a.get("error")}})
         if nontrivial(case, a):
             ctx.nontriv(json.dumps(case, sort_keys=True))
-        ctx.sample({"case": {k: case[k] for k in ("solver", "seed", "max_iter", "minimize")}, "result": a.get("result")}, 3)
+        ctx.sample({"case": {k: case[k] for k in ("solver", "family", "seed", "minimize")}, "result": a.get("result")}, 3)
         for rr in (a, b):
-            if rr["status"] != "ok":
+            if rr["status"] != "ok" or len(rr["log"]) > COQ_MAX_EVALS:
                 continue
             try:
                 kind, term, spec = coq_case(case, rr)
@@ -744,41 +1324,45 @@ def run_part_a(ctx: Ctx):
 
     disagree = []
     for kind, (ctype, chk) in CORR.items():
-        failing = ctx.coq_check(kind, IMPORTS, ctype, chk, terms[kind])
+        failing = ctx.coq_check(kind, IMPORTS, ctype, chk, terms[kind], shard=120)
         disagree += [(kind, metas[kind][i], terms[kind][i]) for i in failing]
-    spec_fail = ctx.coq_check("spec", IMPORTS, "speccase", "spec_ok", specs)
+    spec_fail = ctx.coq_check("spec", IMPORTS, "speccase", "spec_ok", specs, shard=200)
     for i in spec_fail:
         case, rr = spec_meta[i]
         if not (KNOWN_LNS in known and rejected_improvement(case, rr)):
-            if not any(v["replay"].get("case") == case for v in ctx.violations):
+            if not any(v["replay"].get("case") == case for v in ctx.violations) and not ctx.violations:
                 ctx.violation(f"{case['solver']}: Coq spec checker obs_spec_check rejects the implementation's result "
                               f"{rr['result']} against the recorded log", {"case": case, "impl": rr["result"]})
 
     ctx.notes += [
-        "C19/A: objective values are integers (exact comparisons); rounding of float-valued objectives is outside the theorems",
+        "C19/A: objective values are exact Python ints or integral floats (exact comparisons); rounding of other float-valued objectives is outside the theorems",
         "C19/A: float decisions (cooling schedule vs min_temp, random() < exp(-delta/T), accept rules of lns/alns) enter the machines as recorded bits",
-        "C19/A: identity of a solution = index of its evaluation; the returned solution is matched by VALUE against deep copies taken at call time",
-        "C19/A: seed reproducibility is a property of random.Random (trusted, tested by running each case twice)",
-        "C19/A: tabu cooldown>=1 and a non-empty evolve population are assumed (the code raises IndexError otherwise)",
+        "C19/A: identity of a solution = index of its evaluation; the returned solution is matched by VALUE AND TYPE against deep copies taken at call time",
+        "C19/A: seed reproducibility is a property of random.Random (trusted, tested by running each case twice on the same input objects)",
+        "C19/A: tabu cooldown>=1 and a non-empty evolve population are assumed (the code raises IndexError otherwise); a tabu SOLUTION that is None is not generated (tabu_search reserves None for 'no admissible neighbour')",
+        "C19/A: shift invariance (f+c gives the same trajectory, objective+c) is a metamorphic oracle for exact-integer objectives only",
     ]
 
     # ---- disagreement between machine and implementation with no property violation found: search, then report
     if (disagree or shape_fail or ctx.broken) and not ctx.violations:
         found = False
         pool = [d[1][0] for d in disagree] + [s[0] for s in shape_fail]
+        fams = [fam_L, fam_M, fam_H, lambda r, s, b: fam_I(r, s, b) or gen_case(r, s, b)]
         for k in range(ctx.budget(3000, 12000)):
             if pool and k % 2 == 0:
                 case = copy.deepcopy(ctx.rng.choice(pool))
                 case["seed"] = ctx.rng.randrange(10**6)
                 case["cb_seed"] = ctx.rng.randrange(10**6)
                 case["minimize"] = ctx.rng.random() < 0.5
+            elif k % 4 == 1:
+                case = ctx.rng.choice(fams)(ctx.rng, ctx.rng.choice(SOLVERS), True)
             else:
                 case = gen_case(ctx.rng, ctx.rng.choice(SOLVERS), True)
-            a, b, c = run_case(case)
-            w = judge(case, a) or judge(case, b) or (case["seed"] is not None and (judge_mirror(a, b) or judge_det(a, c)))
-            if w:
-                ctx.violation(f"{case['solver']}: {w}", {"case": case, "impl": {"primary": a.get("result") or a.get("error"),
-                                                                              "mirror": b.get("result") or b.get("error")}})
+            runs = run_case(case)
+            bad = judge_all(case, runs)
+            if bad:
+                ctx.violation(f"{case['solver']}: {bad[0][2]}", {"case": case, "impl": {"primary": runs[0].get("result") or runs[0].get("error"),
+                                                                                    "mirror": runs[1].get("result") or runs[1].get("error")}})
                 found = True
                 break
         if not found:
@@ -803,21 +1387,22 @@ def _model_term(kind, term):
 
 def replay(obj):
     case = obj.get("case")
-    if not case or "solver" not in case:
+    if isinstance(case, dict) and case.get("part") == "shapes":
+        from harness.props import C19_shapes
+
+        return C19_shapes.replay(obj)
+    if not case or "solver" not in case or "space" not in case:
         if _partb is not None and hasattr(_partb, "replay"):
             return _partb.replay(obj)
         print("replay names an unchecked obligation:", obj.get("unchecked") or obj.get("what"))
         return 1
-    a, b, c = run_case(case)
-    rc = 0
-    for tag, rr in (("primary", a), ("mirror", b)):
-        w = judge(case, rr)
+    runs = run_case(case)
+    for tag, rr in (("primary", runs[0]), ("mirror", runs[1])):
         print(tag, "minimize" if rr["minimize"] else "maximize", "-f" if rr["negate"] else "f", "->", rr.get("result") or rr.get("error"))
         print("   evaluated:", [(p, v) for p, v in rr["log"]][:40])
-        print("   oracle:", w or "ok")
-        rc |= 1 if w else 0
-    for w in (judge_mirror(a, b), judge_det(a, c)):
-        if w and case.get("seed") is not None:
-            print("   oracle:", w)
-            rc = 1
-    return rc
+    bad = judge_all(case, runs)
+    for tag, rr, w in bad:
+        print("   oracle:", tag, w)
+    if not bad:
+        print("   oracle: ok")
+    return 1 if bad else 0
